@@ -130,3 +130,25 @@ def c11_fma_fix_overflow_drops_error_term(site, w):
     import math
     lm = math.log2(abs(x)) + math.log2(abs(y)) + 2 * math.log2(1 + 2.0 ** -(prec[0] - prec[1]))
     return lm >= math.log2(big) - 1e-9 and abs(x * y) <= big
+
+
+def c17_trig_two_over_pi_truncated(site, w):
+    """trigonometric reduction: the 2/pi multiword of a dtype cannot hold words below its smallest subnormal, so x*(2/pi) carries an absolute error of
+    about |x| * smallest_subnormal; when x is near a multiple of pi/2 (tiny remainder) or near the top of the domain this exceeds the ULP bound"""
+    if site != "trig:reconstruction":
+        return False
+    r = w.get("abs_error_over_x_times_smallest_subnormal")
+    return r is not None and 0 <= _unfl(r) <= 4.0
+
+
+def c17_trig_remainder_absolute_accuracy(site, w):
+    """trigonometric reduction: (r, t) is a double word of the *fraction* of x*2/pi, i.e. accurate to about 2^-2p in absolute terms; for the
+    worst-case inputs whose remainder is below ~2^-(p-5) this is 2-4 ULP of the remainder"""
+    if site != "trig:reconstruction":
+        return False
+    p = {"float16": 11, "float32": 24, "float64": 53}[w["dtype"]]
+    la, lr = w.get("log2_abs_error"), w.get("log2_abs_true_remainder")
+    if la is None or lr is None:
+        return False
+    la, lr = _unfl(la), _unfl(lr)
+    return lr <= -(p - 5) and la <= -(2 * p - 6) and w.get("ulps", 99) <= 8
